@@ -12,9 +12,12 @@ MANIFEST = dict(
            "reference for cipher none) are decoded by the daemon with the same fields; frozen upstream credential as corpus.",
            "7 C10"),
     note="The reference implementation is the extraction of the Coq model linked with libgcrypt/zlib/bzlib, which share no code "
-         "with munged's OpenSSL path; a second, Python, reference covers cipher=none. spec => accept for credentials NOT produced "
-         "by the model's own encoder (e.g. another compressor's output) is exercised live, not proved.",
-    technique="Coq proof (encoder satisfies declarative spec; cross-configuration round trip) + two-way live interchange")
+         "with munged's OpenSSL path; a second, Python, reference covers cipher=none. spec => accept is proved for every string satisfying "
+         "the documented relation with fields munged can decode (C10_spec_accepted, V3Accept.v: any IV, salt, origin address of "
+         "0 or 4 bytes, compression that did not shrink, any conforming implementation's choices), the relation is inhabited "
+         "for every in-range field record (C10_spec_inhabited), and the clauses of the document too weak for acceptance are "
+         "closed Examples (16-byte origin address, MAC none, MAC shorter than the cipher key, unknown zip code).",
+    technique="Coq proof (encoder satisfies declarative spec; every string satisfying the spec is accepted with its fields; cross-configuration round trip) + two-way live interchange")
 
 ANY = 0xFFFFFFFF
 
